@@ -11,45 +11,45 @@ TRUST = ('Trusted base: CPython 3.12, numpy/scipy, the loop-based reference mode
 
 CHECKS = {
     'C01': ('exploration', 'reference-model contract (anchor-and-scale law) on ExchangeMap.__call__',
-            'Every generated (reference, target, scale) triple is mapped by the real ExchangeMap and every target atom is compared with a + s(p - a) computed from the bond graph and coordinates by an independent model; collinear / axis-aligned anchors are generated on purpose. Sampling, not proof: the space of molecules and geometries is continuous.', '4 C01'),
+            'Every generated (reference, target, scale) triple is mapped by the real ExchangeMap and every target atom is compared with a + s(p - a) computed from the bond graph and coordinates by an independent model; collinear / axis-aligned anchors are generated on purpose; maps are also applied to other configurations and then to the construction object again. Sampling, not proof: the space of molecules and geometries is continuous.', '4 C01'),
     'C02': ('exploration', 'differential runs of one map object on rigidly moved copies (QR rotations independent of the library)',
-            'Same map object applied to a reference and to rigidly moved copies; generic anchors must commute to 1e-8, axis-free anchors (collinear, 2-atom, 1-atom references) must keep the cylindrical invariants. SO(3) and translations are sampled.', '4 C02'),
+            'Same map object applied to a reference and to rigidly moved copies; generic anchors must commute to 1e-8, axis-free anchors (collinear, 2-atom, 1-atom references) must keep the cylindrical invariants; motions include exact half turns, bond-reversing turns, and configurations that differ from the previous call by 1e-7..1e-3; near-collinear anchors (sin 1e-6..1e-3) are judged where the per-atom floating-point floor allows. SO(3) and translations are sampled.', '4 C02'),
     'C03': ('exploration', 'contract on every map call (distance-to-anchor = s x construction distance) + one-atom-at-a-time perturbation differential',
-            'Shape preservation is checked as a post-condition on every call on deformed conformations; locality by displacing each reference atom in turn and comparing the atoms whose anchor frame does not contain it (1e-12).', '4 C03'),
+            'Shape preservation is checked as a post-condition on every call on deformed conformations; locality by displacing each reference atom in turn and comparing the atoms whose anchor frame does not contain it (1e-12); the construction conformation itself and one-ulp changes of it are included, and molecules returned earlier are re-read after later calls.', '4 C03'),
     'C04': ('exploration', 'history monitor with shadow state against fresh maps built from pristine deep copies',
-            'Random call histories (calls, rejected arguments, mutation of construction molecules / results / arguments) on one map; after every operation all retained results, arguments and construction molecules are compared with shadows and with a freshly built map.', '4 C04'),
+            'Random call histories (calls, rejected arguments, mutation of construction molecules / results / arguments) on one map; after every operation all retained results, arguments and construction molecules are compared with shadows and with a freshly built map; arguments are numbered like the construction molecule or non-consecutively, construction molecules are renumbered, references with exactly collinear anchors are moved by rigid motions that are exact in floating point.', '4 C04'),
     'C05': ('exploration', 'conservation / exactly-once monitor over generator truth, the event log of map calls and writer calls, and the output file parsed independently',
-            'Generated multi-species systems (interleaved, unmapped species, solvent, triclinic boxes) are extrapolated by the real Manager; the output is read by an independent fixed-column reader and matched molecule by molecule with the i-th eligible input instance and the i-th map call.', '4 C05'),
+            'Generated multi-species systems (interleaved, unmapped species, solvent, triclinic boxes) are extrapolated by the real Manager; the output is read by an independent fixed-column reader and matched molecule by molecule with the i-th eligible input instance and the i-th map call; residue numbers with gaps and restarts, and outputs of 99999..200003 atoms, are included.', '4 C05'),
     'C06': ('exploration', 'post-condition on Alignment.align_molecules (snapshots of start/end/caller objects) + bit-exact repeated runs',
-            'Alignments over random tree / cyclic / shipped molecules, both size orders and ties, restraint lists, deformation subsets, hydrogen settings and seeds; the larger molecule must be a pure translate, tree bonds must be preserved to 1e-9, repeated runs must be bit-identical.', '4 C06'),
+            'Alignments over random tree / cyclic / shipped molecules, both size orders and ties, restraint lists, deformation subsets, hydrogen settings and seeds; the larger molecule must be a pure translate, tree bonds must be preserved to 1e-9, repeated runs must be bit-identical, in the same process and in fresh interpreters under other PYTHONHASHSEED values; one Alignment object is also used for several alignments in a row.', '4 C06'),
     'C07': ('exploration', 'contracts on move_mol_atom / find_atom_random_displ; all labelled trees up to 7 vertices x every moved atom enumerated',
-            'The finite sub-space (all labelled trees on <= 7 vertices, every moved atom) is enumerated completely in the thorough tier (quick: <= 6 plus a sample of 7); coordinates, displacements, bond tables and larger graphs are sampled; the same contracts run on every move made inside Monte-Carlo runs.', '4 C07'),
+            'The finite sub-space (all labelled trees on <= 7 vertices, every moved atom) is enumerated completely in the thorough tier (quick: <= 6 plus a sample of 7); coordinates, displacements, bond tables and larger graphs are sampled; the same contracts run on every move made inside Monte-Carlo runs and on call sequences that re-use one bond table / coordinate array edited in place.', '4 C07'),
     'C08': ('exploration', 'reference-model monitor (naive chi2) beside every Chi2Calculator call, plus rigid-motion and relabelling metamorphic runs',
-            'Each evaluation of the real calculator on configurations different from its construction one is compared with a loop-based definition; all three internal paths must be observed (line coverage) or the run is inconclusive.', '4 C08'),
+            'Each evaluation of the real calculator on configurations different from its construction one is compared with a loop-based definition; all three internal paths must be observed (line coverage) or the run is inconclusive; evaluations re-use one array object, strided / Fortran arrays, and coordinate sets 1e2..1e4 nm from the origin (tolerance includes the float floor of the definition).', '4 C08'),
     'C09': ('exploration', 'offline trace checker of the Monte-Carlo loop against a sequential specification (events from wrapped module-level names)',
-            'Every chi2 evaluation, acceptance decision (with the uniform draw observed), move and the returned array of real runs are recorded and replayed against a 30-line specification: held energy, Metropolis rule, proposal type and geometry, last-accepted return, exact stop.', '4 C09'),
+            'Every chi2 evaluation, acceptance decision (with the uniform draw observed), move and the returned array of real runs are recorded and replayed against a 30-line specification: held energy, Metropolis rule, proposal type and geometry, last-accepted return, exact stop; runs in length units 1e-5..1e3, ring molecules, and molecules whose single-atom moves have no finite measure (such proposals may only be refused).', '4 C09'),
     'C10': ('exploration', 'boundary recorder on the optimiser entry point (atoms identified by unique coordinates) + post-conditions on the guessers (40x40 exhaustive) + routing log of Manager',
-            'What reaches minimize_molecules is translated back to atoms by coordinates and compared with the user pairs; the per-residue splitter is enumerated over all 1..40 x 1..40 sizes; manager options are routed on generated multi-species systems.', '4 C10'),
+            'What reaches minimize_molecules is translated back to atoms by coordinates and compared with the user pairs; the per-residue splitter is enumerated over all 1..40 x 1..40 sizes; manager options (also pre-parsed, in the caller's key order, handed over twice) are routed on generated multi-species systems; repeated alignments re-use one restraint list object.', '4 C10'),
     'C11': ('exploration', 'reference = generator ground truth; all sequences <= 6 over 5 species x all load orders enumerated (thorough)',
-            'System() on generated files; every returned molecule is identified through its unique coordinates with the file lines it came from. The finite sub-space is enumerated completely in the thorough tier, longer systems are sampled.', '4 C11'),
+            'System() on generated files; every returned molecule is identified through its unique coordinates with the file lines it came from. The finite sub-space is enumerated completely in the thorough tier, longer systems are sampled; a second species family (residue layouts that merge across molecule boundaries), refused topologies between good loads, and interleaved iterations / indexing are included.', '4 C11'),
     'C12': ('exploration', 'history monitor: one SystemGro object vs a reference list built by an independent reader, random access histories',
-            'Random files and random access sequences (index, negative index, slices, interleaved live iterators); every result compared at once with the reference list.', '4 C12'),
+            'Random files and random access sequences (index, negative index, slices, interleaved live iterators); every result compared at once with the reference list; half of the histories run on objects never walked to the end; atoms at rest included.', '4 C12'),
     'C13': ('exploration', 'differential: generator truth vs independent fixed-column reader vs GroFile re-read; line-length invariant on writeline',
-            'Random record lists, names, numbers around the five-digit limit, rounding-boundary coordinates, velocities, boxes, formats, declared / back-filled counts are written by the real writer and read back twice.', '4 C13'),
+            'Random record lists, names, numbers around the five-digit limit, rounding-boundary coordinates, velocities, boxes, formats, declared / back-filled counts, multi-byte titles, atoms at rest and slow negative velocities are written by the real writer and read back twice.', '4 C13'),
     'C14': ('fault_enumeration', 'crash-point enumeration: sys.monitoring failpoints at every writer statement with on-disk snapshots under three buffering models; every byte-prefix of complete files',
-            'Every statement boundary of the writer functions is a crash point whose surviving bytes are captured through a second descriptor; every distinct image and every byte-level truncation of shipped and generated files is fed to the reader. Exhaustive for the files and writer runs listed in the evidence.', '4 C14'),
+            'Every statement boundary of the writer functions is a crash point whose surviving bytes are captured through a second descriptor; every distinct image and every byte-level truncation of shipped and generated files is fed to the reader. Exhaustive for the files and writer runs listed in the evidence; files of 99999..200004 records are swept in windows plus a random sample (stated in the evidence).', '4 C14'),
     'C15': ('exploration', 'generator truth + union-find reference for connectivity',
-            'Generated topologies (renumbered atoms with gaps, bonds split over sections, decorations, chains of thousands of atoms) are read by the real reader and compared with the generator truth.', '4 C15'),
+            'Generated topologies (renumbered atoms with gaps, bonds split over sections, decorations, chains of thousands of atoms) are read by the real reader and compared with the generator truth; include targets that exist, header-like comments, copies of topologies modified after loading.', '4 C15'),
     'C16': ('exploration', 'independent tokeniser on original and written file + library re-parse + second round trip',
-            'All shipped topologies and generated hostile files are read, written and re-read; the tokens of every section are compared by an independent tokeniser.', '4 C16'),
+            'All shipped topologies and generated hostile files are read, written and re-read; the tokens of every section are compared by an independent tokeniser; header-like comments and directives with trailing comments are part of the noise.', '4 C16'),
     'C17': ('exploration', 'contracts on rotation_matrix / calcule_base at every call-time name + metamorphic relations',
-            'Directed sweep over axis/angle and point-triple classes (all collinear classes) and embedded real workloads whose internal calls go through the same contracts.', '4 C17'),
+            'Directed sweep over axis/angle and point-triple classes (all collinear classes) (axes of unit / almost-unit length included) and embedded real workloads whose internal calls go through the same contracts.', '4 C17'),
     'C18': ('exploration', 'history monitor with shadow state over copies, views and rigid operations',
-            'Random operation histories over live objects (atoms, residues, molecules, copies, deep copies, molecules from a System / an Alignment); after each operation every object is compared with its shadow.', '4 C18'),
+            'Random operation histories over live objects (atoms, residues, molecules, copies, deep copies, molecules from a System / an Alignment); after each operation every object is compared with its shadow; integer / strided coordinate arrays and molecules re-assigned to a complete Alignment are included.', '4 C18'),
     'C19': ('exploration', 'reference-model contract (per-axis image scan) on Residue.distance_to + metamorphic relations',
-            'Random residues/points and boxes; orthorhombic values compared with a brute-force minimum image, general boxes through symmetry, lattice-shift invariance and inverse-flag agreement.', '4 C19'),
+            'Random residues/points and boxes; orthorhombic values compared with a brute-force minimum image, general boxes through symmetry, lattice-shift invariance and inverse-flag agreement; sessions re-use one box / inverse-box array edited in place (bit-exact agreement with pristine copies); points on lattice points within rounding noise.', '4 C19'),
     'C20': ('exploration', 'differential runs: CLI main() vs library workflow (same seed), discovery under permuted candidate lists and several PYTHONHASHSEED values (subprocesses)',
-            'Generated multi-species directories with distractors and the shipped BMIM/BF4 files; outputs compared byte for byte, discovery compared with generator truth across orderings and hash seeds (sampled).', '4 C20'),
+            'Generated multi-species directories with distractors and the shipped BMIM/BF4 files; outputs compared byte for byte, discovery compared with generator truth across orderings and hash seeds (sampled); the same command line is re-run in fresh interpreters under other hash seeds; explicit and listed files spelled differently; end topologies named differently.', '4 C20'),
 }
 
 BUILT = [l.strip() for l in open(os.path.join(HERE, 'tools', 'built.txt')) if l.strip()]
